@@ -416,7 +416,75 @@ func runC15(c *core.Ctx) {
 				}
 			})
 			shape = usesClose && usesCL && usesTE
+			// the framing headers looked at are the RESPONSE's (what this writer sends), not the request's
+			c.Instance("R4")
+			reqHdr := ""
+			core.AllInstrs(sc, func(in ssa.Instruction) {
+				cc := core.CallCommon(in)
+				if cc == nil || cc.IsInvoke() || len(cc.Args) < 2 {
+					return
+				}
+				o := core.CalleeObj(in)
+				if o == nil || o.Pkg() == nil || o.Pkg().Path() != "net/http" || o.Name() != "Get" {
+					return
+				}
+				recv := core.Unwrap(core.ForwardLoad(core.Unwrap(cc.Args[0])))
+				if fv, _ := core.FieldOf(recv); fv != nil && fv.Pkg() != nil && fv.Pkg().Path() == "net/http" {
+					reqHdr = p.InstrPos(in)
+				}
+			})
+			c.Check(reqHdr == "", "R4", "response-writer/close-decision/response-headers", p.Pos(sc.Pos()), "the decision reads the response's own headers", "the close decision reads Content-Length / Transfer-Encoding from the REQUEST ("+reqHdr+"): a request with a body answered without a length is kept open (client waits for the end of the body), a sized answer to a bodiless request closes the connection under pipelined requests")
 		}
+		// status line: HTTP/<major>.<minor> in that order
+		if wh := p.DeclMethod(rw, "WriteHeader"); wh != nil {
+			c.Instance("R4")
+			good, found := true, false
+			for _, f := range core.WithAnon(wh) {
+				core.AllInstrs(f, func(in ssa.Instruction) {
+					cc := core.CallCommon(in)
+					if cc == nil || !core.IsPkgFunc(in, "fmt", "Fprintf") || len(cc.Args) < 3 {
+						return
+					}
+					k, ok := cc.Args[1].(*ssa.Const)
+					if !ok || k.Value == nil || !strings.Contains(k.Value.ExactString(), "HTTP/%d.%d") {
+						return
+					}
+					found = true
+					sl, ok := cc.Args[2].(*ssa.Slice)
+					if !ok {
+						return
+					}
+					al, ok := sl.X.(*ssa.Alloc)
+					if !ok || al.Referrers() == nil {
+						return
+					}
+					names := map[int64]string{}
+					for _, ref := range *al.Referrers() {
+						ia, ok := ref.(*ssa.IndexAddr)
+						if !ok || ia.Referrers() == nil {
+							continue
+						}
+						idx, isC := core.ConstInt(ia.Index)
+						if !isC {
+							continue
+						}
+						for _, r2 := range *ia.Referrers() {
+							if st, ok := r2.(*ssa.Store); ok && st.Addr == ssa.Value(ia) {
+								if fv, _ := core.FieldOf(core.Unwrap(st.Val)); fv != nil {
+									names[idx] = fv.Name()
+								}
+							}
+						}
+					}
+					if names[0] == "ProtoMinor" || names[1] == "ProtoMajor" {
+						good = false
+					}
+				})
+			}
+			_ = found
+			c.Check(good, "R4", "response-writer/status-line/version-order", p.Pos(wh.Pos()), "HTTP/<major>.<minor>", "the status line prints the protocol version as minor.major: an HTTP/1.0 request is answered HTTP/0.1 (malformed)")
+		}
+
 		c.Check(marks && shape, "R4", "response-writer/close-decision", p.Pos(fin.Pos()), "Close marks request.Close when the request asked to close or the response is not self-delimiting", "the close decision does not consider request.Close, Content-Length and Transfer-Encoding, or never marks the request for closing")
 	}
 
@@ -474,7 +542,9 @@ func runC15(c *core.Ctx) {
 		})
 		c.Check(fin, "R3", "adapter/deferred-finish", p.InstrPos(serve), "the response is finished by a deferred call registered before ServeHTTP (runs on panic too)", "the adapter does not finish the response (Close) in a deferred call registered before ServeHTTP: a panicking or early-returning handler leaves the response unfinished / the pooled writer leaked")
 	}
-	importObligations(c, runC06, "R4", func(o *core.Obligation) bool { return strings.Contains(o.Key, "http-close-after-delivery") })
+	importObligations(c, runC06, "R4", func(o *core.Obligation) bool {
+		return strings.Contains(o.Key, "http-close-after-delivery") || o.Rule == "R1" || o.Rule == "R2"
+	})
 	// responses go through the channel's write path (queue / lock / flush), never straight to the transport
 	c.Rule("R5", "the response is written through the channel's write path, not straight to the transport (shared with C01-R3)", 1)
 	importObligations(c, runC01, "R5", func(o *core.Obligation) bool {
